@@ -157,17 +157,22 @@ fake_trx.random = types.SimpleNamespace(randint=Draw.randint)
 fake_pm.randint = Draw.randint
 
 class StaleCounter(logging.Handler):
+    """counts the reports of stale bursts.  The report is recognised by what it is about, not by its exact wording or level:
+    a log record emitted by Transceiver.clck_tick, or any record whose text speaks of a 'stale' message."""
     n = 0
     def emit(self, rec):
         try:
-            if "Stale TRXD message" in rec.getMessage():
+            if rec.funcName == "clck_tick" and rec.module == "transceiver":
+                if rec.levelno >= logging.INFO or "stale" in rec.getMessage().lower():
+                    StaleCounter.n += 1
+            elif rec.levelno >= logging.INFO and "stale" in rec.getMessage().lower():
                 StaleCounter.n += 1
         except Exception:
             pass
 
 root = logging.getLogger()
 root.handlers[:] = [StaleCounter()]
-root.setLevel(logging.WARNING)
+root.setLevel(logging.INFO)     # DEBUG would make every log.debug() of the toolkit build a record
 
 # optional trace of routing decisions (oracle mode only; never compared with the model):
 # every FakeTRX.handle_data_msg(self, src_trx, src_msg, msg) call is recorded as call:<dst>:<src>:<fn>
